@@ -6,6 +6,7 @@ live classes on every run).
 `aligned_source` / `alignment_error` from `Alignment` and `set_target` from `Targetable` (so the theorems
 `aligned_source_def` / `alignment_error_def`, stated once, are about every class: an override in one class breaks
 this obligation before any behaviour is sampled), and the option defaults are the ones the model is written for.
+`dtype_rows_ok`: the storage dtype of every state array is independent of the dtype of a previous target.
 `gpa_live_ok`: a live GPA holds one rotation-fitting `AlignmentSimilarity` per source with the mirroring it was asked
 for and stops after 100 passes — the shape of `gpa` (`simAlign`, `maxIter`).
 -/
@@ -19,5 +20,11 @@ theorem entries_wf : EntriesWF MenpoModel.Generated.C07.entries = true := by dec
 
 theorem gpa_live_ok : MenpoModel.Generated.C07.gpaLive.all GpaLive.ok = true ∧
     MenpoModel.Generated.C07.gpaLive.map (·.mirrorArg) = [false, true] := by decide
+
+/-- measured on live objects on every run: after (construct on a first target of dtype A, `set_target` to a target of
+dtype B) every state array of every alignment class has the dtype it has in an object built directly on the second
+target, for all nine (A, B) in {int64, float32, float64}² — a buffer that keeps the first target's dtype breaks this
+before any behaviour is sampled -/
+theorem dtype_rows_ok : DtypeTableOK MenpoModel.Generated.C07.dtypeRows = true := by decide
 
 end MenpoModel.GenProps.C07
